@@ -293,10 +293,13 @@ func gen(seed int64, n int, tier string) []interface{} {
 			mref := javagen.Expr{K: "mref", Type: "Objects", Callee: "nonNull", Args: []javagen.Expr{}}
 			use := javagen.Expr{K: "call", RecvKind: "var", Recv: "items", Callee: "removeIf", Args: []javagen.Expr{mref}}
 			np := javagen.File{Id: "nopkg", PathKind: "main", Dirs: "", Pkg: "", Imports: []javagen.Import{
-				{Pkg: "unused.pkg", Name: "NeverUsed"}, {Pkg: "java.util", Name: "Objects"}, {Pkg: "java.util", Name: "List"}}}
+				{Pkg: "unused.pkg", Name: "NeverUsed"}, {Pkg: "java.util", Name: "Objects"}, {Pkg: "java.util", Name: "List"},
+				// a type whose name begins with an upper-case letter outside Latin-1, used only as a static receiver
+				{Pkg: "vn.app", Name: "ỨngDụng"}}}
+			viet := javagen.Expr{K: "call", RecvKind: "static", Recv: "ỨngDụng", Callee: "run", Args: []javagen.Expr{}}
 			np.Unit = javagen.Unit{Kind: "class", Name: "NoPackage", Members: []javagen.Member{
 				{Kind: "field", Name: "items", Type: "List", Mods: []string{"private"}},
-				{Kind: "method", Name: "clean", Type: "void", Mods: []string{"public"}, Body: []javagen.Stmt{{K: "expr", E: &use}}}}}
+				{Kind: "method", Name: "clean", Type: "void", Mods: []string{"public"}, Body: []javagen.Stmt{{K: "expr", E: &use}, {K: "expr", E: &viet}}}}}
 			p.Files = append(p.Files, np)
 		}
 		out = append(out, Case{Case: fmt.Sprintf("rand-%d-%d", seed, k), Files: p.Files, Layout: p.Layout,
